@@ -138,6 +138,22 @@ func (ex *Exec) deepEq(a, b Value, depth int) *Term {
 			return f.False
 		}
 		xs, ys := ex.sliceElems(x), ex.sliceElems(y)
+		allInt := len(xs) > 0
+		for i := range xs {
+			_, a := xs[i].(Int)
+			_, b := ys[i].(Int)
+			if !a || !b {
+				allInt = false
+				break
+			}
+		}
+		if allInt { // byte strings: go through bytesEq so that digests are related by injectivity
+			bx, by := make([]*Term, len(xs)), make([]*Term, len(ys))
+			for i := range xs {
+				bx[i], by[i] = xs[i].(Int).T, ys[i].(Int).T
+			}
+			return ex.bytesEq(bx, by)
+		}
 		var cs []*Term
 		for i := range xs {
 			cs = append(cs, ex.deepEq(xs[i], ys[i], depth+1))
@@ -181,76 +197,97 @@ func (ex *Exec) deepEq(a, b Value, depth int) *Term {
 	return ex.valEq(a, b)
 }
 
+// keyOf appends a structural identity of v (through pointers) to sb; returns false if not expressible.
+func (ex *Exec) keyOf(sb *strings.Builder, v Value, depth int) bool {
+	if depth > 30 || sb.Len() > 1<<16 {
+		return false
+	}
+	switch x := v.(type) {
+	case Int:
+		fmt.Fprintf(sb, "i%d,", x.T.ID)
+	case BoolV:
+		fmt.Fprintf(sb, "b%d,", x.T.ID)
+	case Big:
+		fmt.Fprintf(sb, "B%d,", x.T.ID)
+	case Float:
+		fmt.Fprintf(sb, "f%d,", x.T.ID)
+	case Str:
+		switch {
+		case x.Enc != nil:
+			sb.WriteString("e" + x.Enc.Kind + ":" + termsKey(x.Enc.Data) + ",")
+		case x.Opq != nil:
+			if x.Opq.Key != "" {
+				sb.WriteString("o(" + x.Opq.Key + "),")
+			} else {
+				fmt.Fprintf(sb, "o%d,", x.Opq.ID)
+			}
+		default:
+			sb.WriteString("s" + termsKey(x.B) + ",")
+		}
+	case Ptr:
+		if x.O == nil {
+			sb.WriteString("nil,")
+		} else {
+			sb.WriteString("&(")
+			if !ex.keyOf(sb, ex.load(x), depth+1) {
+				return false
+			}
+			sb.WriteString("),")
+		}
+	case Struct:
+		sb.WriteString("{")
+		for _, fv := range x.F {
+			if !ex.keyOf(sb, fv, depth+1) {
+				return false
+			}
+		}
+		sb.WriteString("},")
+	case Array:
+		sb.WriteString("[")
+		for _, e := range x.E {
+			if !ex.keyOf(sb, e, depth+1) {
+				return false
+			}
+		}
+		sb.WriteString("],")
+	case Slice:
+		if x.Blob != nil {
+			k := ex.blobKey(x.Blob)
+			if k == "" {
+				return false
+			}
+			sb.WriteString("blob(" + k + "),")
+		} else {
+			sb.WriteString("sl[")
+			for _, e := range ex.sliceElems(x) {
+				if !ex.keyOf(sb, e, depth+1) {
+					return false
+				}
+			}
+			sb.WriteString("],")
+		}
+	case Iface:
+		if x.T == nil {
+			sb.WriteString("nilif,")
+		} else {
+			sb.WriteString("if:" + x.T.String() + "(")
+			if !ex.keyOf(sb, x.V, depth+1) {
+				return false
+			}
+			sb.WriteString("),")
+		}
+	case nil:
+		sb.WriteString("none,")
+	default:
+		return false
+	}
+	return true
+}
+
 // blobKey: structural identity of an opaque encoding (same key => same bytes).
 func (ex *Exec) blobKey(b *Blob) string {
 	var sb strings.Builder
 	ok := true
-	var walk func(v Value, depth int)
-	walk = func(v Value, depth int) {
-		if depth > 30 || sb.Len() > 1<<16 {
-			ok = false
-			return
-		}
-		switch x := v.(type) {
-		case Int:
-			fmt.Fprintf(&sb, "i%d,", x.T.ID)
-		case BoolV:
-			fmt.Fprintf(&sb, "b%d,", x.T.ID)
-		case Big:
-			fmt.Fprintf(&sb, "B%d,", x.T.ID)
-		case Float:
-			fmt.Fprintf(&sb, "f%d,", x.T.ID)
-		case Str:
-			switch {
-			case x.Enc != nil:
-				sb.WriteString("e" + x.Enc.Kind + ":" + termsKey(x.Enc.Data) + ",")
-			case x.Opq != nil:
-				fmt.Fprintf(&sb, "o%d,", x.Opq.ID)
-			default:
-				sb.WriteString("s" + termsKey(x.B) + ",")
-			}
-		case Ptr:
-			if x.O == nil {
-				sb.WriteString("nil,")
-			} else {
-				sb.WriteString("&(")
-				walk(ex.load(x), depth+1)
-				sb.WriteString("),")
-			}
-		case Struct:
-			sb.WriteString("{")
-			for _, fv := range x.F {
-				walk(fv, depth+1)
-			}
-			sb.WriteString("},")
-		case Array:
-			sb.WriteString("[")
-			for _, e := range x.E {
-				walk(e, depth+1)
-			}
-			sb.WriteString("],")
-		case Slice:
-			if x.Blob != nil {
-				sb.WriteString("blob(" + ex.blobKey(x.Blob) + "),")
-			} else {
-				sb.WriteString("sl[")
-				for _, e := range ex.sliceElems(x) {
-					walk(e, depth+1)
-				}
-				sb.WriteString("],")
-			}
-		case Iface:
-			if x.T == nil {
-				sb.WriteString("nilif,")
-			} else {
-				sb.WriteString("if:" + x.T.String() + "(")
-				walk(x.V, depth+1)
-				sb.WriteString("),")
-			}
-		default:
-			ok = false
-		}
-	}
 	switch {
 	case b.Pack != nil:
 		m := b.Pack.method
@@ -259,16 +296,16 @@ func (ex *Exec) blobKey(b *Blob) string {
 		}
 		fmt.Fprintf(&sb, "pack:%s:%s:%d:", b.Pack.abi, m, b.Pack.skip)
 		for _, a := range b.Pack.args {
-			walk(a, 0)
+			ok = ok && ex.keyOf(&sb, a, 0)
 		}
 	case b.Str != nil:
 		sb.WriteString("str:")
-		walk(*b.Str, 0)
+		ok = ex.keyOf(&sb, *b.Str, 0)
 	default:
 		if b.Typ != nil {
 			sb.WriteString("msg:" + b.Typ.String() + ":")
 		}
-		walk(b.V, 0)
+		ok = ex.keyOf(&sb, b.V, 0)
 	}
 	if !ok {
 		return ""
